@@ -20,7 +20,7 @@ TRIPLES = ["x86_64-linux-gnu", "aarch64-linux-musl", "riscv64-linux-gnu"]
 A_WRAP = ["posix_spawnp", "posix_spawn_file_actions_init", "posix_spawn_file_actions_adddup2",
           "posix_spawn_file_actions_destroy", "pipe", "fcntl", "close", "wait", "waitpid", "kill",
           "mkstemp", "unlink", "readlink", "access", "_exit", "sigprocmask", "pthread_sigmask", "sigaction", "signal", "__sysv_signal", "exit", "atexit", "malloc", "realloc", "strdup",
-          "posix_spawn", "lstat", "stat", "getenv", "nanosleep", "clock_nanosleep", "usleep", "sleep", "getauxval"]
+          "posix_spawn", "lstat", "stat", "getenv", "nanosleep", "clock_nanosleep", "usleep", "sleep", "getauxval", "alarm"]
 # symbols the driver may import without going through the simulator
 A_PURE = {"fprintf", "fputc", "vfprintf", "perror", "stderr", "strerror", "strsignal", "memcmp", "memcpy",
           "strchr", "strcmp", "strcpy", "strlen", "strncmp", "strrchr", "__errno_location", "environ",
